@@ -1031,6 +1031,38 @@ def recv_order(ctx, B, rule="R10.1"):
                 break
         ok_t = [tt for v, tt in sw.cases if v == 0] if sw else []
         ctx.require(bool(ok_t) and not cfg.reaches(ok_t[0], ht[0][0]), rule, "urgent-returns", "a pending urgent control is returned at once", f.loc(ut[0][1].line))
+    # the blocking selects are biased and list their branches in priority order
+    pollers = [c for c in ctx.facts.children(f) if c.kind == "closure" and sum(1 for _, t in c.calls() if t.callee.is_("core::future::future::Future::poll")) >= 2]
+    ctx.floor(rule, "select! poll closures in recv", len(pollers), 2)
+    for c in pollers:
+        ctx.saw_fn(c)
+        rnd = [t for _, t in c.calls() if t.callee.is_("tokio::macros::support::thread_rng_n")]
+        ctx.require(not rnd, rule, "select-biased:" + c.def_.split("::")[-1], "the select! polls its branches in the listed (priority) order, not from a random start",
+                    c.loc(c.line),
+                    fail="a select! in PriorityReceiver::recv is unbiased: when controls are pending in several queues at the moment the idle job task "
+                         "is woken, a random one is taken, so a pending normal control can run before a pending urgent or high one")
+    orders = []
+    for b in f.blocks:
+        for st in b.stmts:
+            if st.kind == "=" and st.rv.kind == "agg" and st.rv.extra[0] == "tuple" and len(st.rv.ops) == 3:
+                labels = []
+                for op in st.rv.ops:
+                    lab = None
+                    for a in origins(f, op, ()):
+                        if a.kind == "call":
+                            ct = f.blocks[a.data].term
+                            if ct.callee.is_("Timer::to_sleep"):
+                                lab = "timer"
+                            elif ct.callee.is_("tokio::sync::mpsc::unbounded::UnboundedReceiver::recv"):
+                                for x in origins(f, ct.args[0]):
+                                    if x.kind in ("upvar", "arg") and x.proj:
+                                        lab = x.proj[-1][2]
+                    labels.append(lab)
+                if all(labels):
+                    orders.append(tuple(labels))
+    ctx.require(sorted(orders) == [("timer", "urgent", "high"), ("urgent", "high", "normal")], rule, "select-branch-order",
+                "select branches are listed timer > urgent > high and urgent > high > normal", f.loc(f.line), detail=str(orders),
+                fail="the select! branches of recv are listed as %s: with a biased select the listed order is the priority order" % orders)
     # select branch sets
     sets = {}
     for bi, t in f.calls():
